@@ -178,7 +178,14 @@ def unit_window(U):
     C13.unit_peek(U, prefix="C09.window")
 
 
-UNITS = [("line.kv", _unit_line(("k=v", 'k="v"'))), ("line.sp", _unit_line(('k "v"', "k v"))), ("vote", unit_vote), ("window", unit_window)]
+def unit_prebuilt(U):
+    """the dialect an iterator inferred from its own data stays the one it reports and parses with, also when it is
+    passed on together with a dialect= keyword (as FeatureDB.update does); shared with C13"""
+    from props import C13
+    C13.unit_dispatch(U, prefix="C09.prebuilt", only=("iterator", "iterator+kwargs"))
+
+
+UNITS = [("prebuilt", unit_prebuilt), ("line.kv", _unit_line(("k=v", 'k="v"'))), ("line.sp", _unit_line(('k "v"', "k v"))), ("vote", unit_vote), ("window", unit_window)]
 try:
     from standins import C09 as _S
     UNITS = UNITS + list(_S.UNITS)
